@@ -41,7 +41,7 @@ def run_native(qual, inputs, timeout=60):
         return {'status': 'crashed'}
 
 
-def replay_counterexample(pid, qual, ob, cm, k):
+def replay_counterexample(pid, qual, ob, cm, k, run_search=True):
     path = os.path.join(HERE, 'replay', '%s-%d.json' % (pid, k))
     rec = {'property': pid, 'function': qual, 'failed_obligation': ob.name, 'kind': ob.kind,
            'solver': {'backend': ob.backend, 'result': ob.status, 'seconds': ob.seconds},
@@ -59,7 +59,8 @@ def replay_counterexample(pid, qual, ob, cm, k):
         if r.get('status') == 'ran' and r.get('breach'):
             reproduced = True
             detail = r.get('detail', '')
-    if not reproduced:
+    found_by_search = False
+    if not reproduced and run_search:
         # bounded search around the contract with the function's own generator
         try:
             import bounded
@@ -72,15 +73,18 @@ def replay_counterexample(pid, qual, ob, cm, k):
                     rec['inputs'] = found[0]
                     rec['native'] = {'status': 'ran', 'breach': True, 'detail': found[1], 'found_by': 'bounded search'}
                     reproduced = True
+                    found_by_search = True
                     detail = found[1]
         except Exception as e:
             rec['search_error'] = '%s: %s' % (type(e).__name__, e)
     rec['reproduced'] = reproduced
     if not reproduced:
-        rec['note'] = 'no-failing-input-found: the obligation is refuted by the solver; the counterexample could not ' \
-                      'be reproduced natively (see native/model)'
+        rec['note'] = 'no-failing-input-found: the obligation is %s by the solver; its %smodel could not ' \
+                      'be reproduced natively (see native/model)' % (
+                          ('refuted', '') if ob.status == 'refuted' else ('left undecided', 'candidate '))
     json.dump(rec, open(path, 'w'), indent=1, default=str)
-    return {'path': path, 'reproduced': reproduced, 'detail': detail, 'inputs': inputs}
+    return {'path': path, 'reproduced': reproduced, 'detail': detail, 'inputs': rec.get('inputs', inputs),
+            'found_by_search': found_by_search}
 
 
 def matches_finding(f, rep):
